@@ -740,7 +740,21 @@ class Verifier(Exec):
             for wn, wtxt in con.ghost.get("witness", {}).items():
                 lenv = dict(s.env)             # the function's locals at `return` (a local
                 lenv["returned"] = o[1]        # named `result` stays visible; the value
-                wit[wn] = self.sp(self.spec_expr(wtxt), s, lenv, ctx)   # returned is `returned`)
+                try:
+                    wit[wn] = self.sp(self.spec_expr(wtxt), s, lenv, ctx)   # returned is `returned`)
+                except Unsupported as e:
+                    # the witness is a local of the function.  If the function does assign it somewhere but
+                    # it does not exist on THIS return path, the function returns without having built what
+                    # the postcondition is about (an early return): the postcondition cannot hold here.
+                    # (A local that is assigned nowhere was renamed: that stays a checker error.)
+                    missing = str(e).split("unknown name ")[-1].strip() if "unknown name" in str(e) else None
+                    fdef_ = self.sources[con.ghost.get("of", con.name)]
+                    if missing and missing in assigned_names(fdef_.body):
+                        self.oblige(s, "%s:post:returns-without-%s" % (con.name, missing), z3.BoolVal(False),
+                                    "the function returns on this path before its local `%s` exists; the "
+                                    "postcondition speaks about it; path %s" % (missing, " / ".join(s.trace[-8:])))
+                        return
+                    raise
             s.env = dict(pre.env)
             s.env.update(wit)
             s.env["result"] = o[1]
